@@ -1,6 +1,8 @@
 package main
 
 import (
+	"verifharness/internal/sconn"
+	"strings"
 	"fmt"
 	"io"
 	"net"
@@ -127,6 +129,91 @@ func scnIsoStress(o *Out, r *Rng, thorough bool) {
 	o.Run("isostress", "16 "+itoa(n/2)+" 2")
 	o.Run("hollimit", "1")
 	o.Run("hollimit", "3")
+	o.Run("holwrite", "1500 3")
+	o.Run("holwrite", "2500 2")
+}
+
+// holwrite: one connection's peer has stopped reading (its response write blocks
+// until the write deadline, scripted connection served by the real server);
+// meanwhile the requests of another client must be answered at once.
+//   in: timeout_ms nreq  out: ok | slow:<ms> | ...
+func init() { executors["holwrite"] = runHolWrite }
+
+func runHolWrite(in []string) (out string) {
+	defer func() {
+		if r := recover(); r != nil {
+			out = "panic"
+		}
+	}()
+	// a scheduling hiccup is not a finding: a real head-of-line block lasts as
+	// long as the write deadline and fails every attempt
+	for attempt := 0; ; attempt++ {
+		out = holWriteOnce(in)
+		if attempt >= 2 || !strings.HasPrefix(out, "slow:") {
+			return out
+		}
+	}
+}
+
+func holWriteOnce(in []string) string {
+	tmo := time.Duration(atoi(in[0])) * time.Millisecond
+	nreq := atoi(in[1])
+	srv, err := modbus.NewServer(&modbus.ServerConfiguration{URL: "tcp://127.0.0.1:0", MaxClients: 4,
+		Timeout: tmo, Logger: quiet}, stressHandler{})
+	if err != nil {
+		return "harness-error:" + err.Error()
+	}
+	if err := srv.Start(); err != nil {
+		return "harness-error:" + err.Error()
+	}
+	addr := srv.VerifListenAddr().String()
+	w := sconn.New(false)
+	w.BlockWrites = true
+	w.Feed(probeReq)
+	done := make(chan struct{})
+	go func() {
+		defer close(done)
+		defer func() { recover() }()
+		srv.VerifServeConn(w)
+	}()
+	defer func() {
+		w.Close()
+		stopped := make(chan struct{})
+		go func() { srv.Stop(); close(stopped) }()
+		select {
+		case <-stopped:
+		case <-time.After(tmo + 2*time.Second):
+		}
+	}()
+	// the server has taken the request off the scripted connection: it is now writing
+	for i := 0; i < 2000 && w.ConsumedNow() < len(probeReq); i++ {
+		time.Sleep(time.Millisecond)
+	}
+	time.Sleep(30 * time.Millisecond)
+	c, err := net.DialTimeout("tcp", addr, time.Second)
+	if err != nil {
+		return "dial"
+	}
+	defer c.Close()
+	worst := time.Duration(0)
+	for i := 0; i < nreq; i++ {
+		t0 := time.Now()
+		c.SetDeadline(time.Now().Add(tmo + 2*time.Second))
+		if _, err := c.Write(probeReq); err != nil {
+			return "write:" + itoa(i)
+		}
+		buf := make([]byte, 11)
+		if _, err := io.ReadFull(c, buf); err != nil {
+			return "noresp:" + itoa(i)
+		}
+		if d := time.Since(t0); d > worst {
+			worst = d
+		}
+	}
+	if worst > 300*time.Millisecond {
+		return "slow:" + itoa(int(worst.Milliseconds()))
+	}
+	return "ok"
 }
 
 // hollimit: the server is at its connection limit; an extra peer connects and
